@@ -79,6 +79,7 @@ EUn(op, a) == [e |-> "un", op |-> op, a |-> a]
 EIdx(a, i) == [e |-> "idx", a |-> a, i |-> i]
 EAttr(a, n) == [e |-> "attr", a |-> a, n |-> n]
 ERest == [e |-> "rest"]
+EIPos == [e |-> "ipos"]                     \* keyword `innermost-pkt-pos` of a callable: where the innermost packet starts
 ERoot(n) == [e |-> "root", n |-> n]        \* field n of the packet that started the operation (keyword `root` of a callable)
 EChoose(key, alts) == [e |-> "choose", key |-> key, alts |-> alts]
 
